@@ -134,6 +134,7 @@ impl<'t> ResponseIterator<'t> {
             if rr_iterator.rrs_left == 0 {
                 return None;
             }
+            rr_iterator.rrs_left -= 1;
             rr_iterator.offset = Some(rr_iterator.offset_next);
             rr_iterator.name_end =
                 RRIterator::skip_name(parsed_packet.packet(), rr_iterator.offset.unwrap());
